@@ -69,6 +69,9 @@ def observe(conf: dict, cli: list[tuple[str, str | None]]):
     from rattr.cli import parse_arguments
     argv = []
     for flag, val in cli:
+        if val is not None and str(val).startswith("-") and flag.startswith("--"):
+            argv.append(f"{flag}={val}")       # a value that starts with "-" is given glued to its option, as argparse asks
+            continue
         argv.append(flag)
         if val is not None:
             argv.append(val)
@@ -149,6 +152,11 @@ def subprocess_cases():
         (proj / "override.toml").write_text('[tool.rattr]\nfollow-imports = 2\nexclude = ["ovr_.*"]\nstdout = "ir"\n')
         (proj / "empty.toml").write_text('[tool.other]\nx = 1\n')
         (proj / "norattr.toml").write_text('[tool.rattr]\n')
+        (proj / "badtype.toml").write_text('[tool.rattr]\nthreshold = "5"\n')
+        (proj / "boolforint.toml").write_text('[tool.rattr]\nfollow-imports = false\n')
+        (proj / "badchoice.toml").write_text('[tool.rattr]\nwarning-level = "loud"\n')
+        (proj / "broken.toml").write_text('[tool.rattr]\nexclude = [\n')
+        (proj / "dashvalue.toml").write_text('[tool.rattr]\nexclude = ["-skip", "ovr_.*"]\nstdout = "results"\n')
         (proj / "target.py").write_text("def skip_me(a):\n    return a.x\n\ndef ovr_me(a):\n    return a.y\n\ndef cli_me(a):\n    return a.z\n\ndef keep(a):\n    return a.k\n")
         runs = {
             "project file only": [],
@@ -158,6 +166,11 @@ def subprocess_cases():
             "-c file with empty tool.rattr": ["-c", "norattr.toml"],
             "project + cli": ["-o", "results", "-x", "cli_.*"],
             "override + cli": ["-c", "override.toml", "-o", "results", "-x", "cli_.*"],
+            "-c file with a value of the wrong type": ["-c", "badtype.toml"],
+            "-c file with a boolean for an integer option": ["-c", "boolforint.toml"],
+            "-c file with an invalid choice": ["-c", "badchoice.toml"],
+            "-c file that is not valid TOML": ["-c", "broken.toml"],
+            "-c file with a list value that starts with a dash": ["-c", "dashvalue.toml"],
         }
         for label, extra in runs.items():
             r = D.run_rattr(proj, [*extra, "target.py"])
@@ -322,12 +335,24 @@ EXPECT_SUBPROCESS = {
     "-c file with empty tool.rattr": ("results", []),
     "project + cli": ("results", ["skip_me", "cli_me"]),
     "override + cli": ("results", ["ovr_me", "cli_me"]),
+    "-c file with a value of the wrong type": ("rejected", None),
+    "-c file with a boolean for an integer option": ("rejected", None),
+    "-c file with an invalid choice": ("rejected", None),
+    "-c file that is not valid TOML": ("rejected", None),
+    "-c file with a list value that starts with a dash": ("results", ["ovr_me"]),
 }
 
 
 def judge_subprocess(label, r):
     kind, absent = EXPECT_SUBPROCESS[label]
     out = r["stdout"].strip()
+    if kind == "rejected":
+        err = rt.strip_ansi(r["stderr"])
+        if "Traceback (most recent call last)" in err:
+            return "an invalid TOML file ends in a Python traceback instead of a diagnostic"
+        if r["exit"] == 0:
+            return "an invalid TOML file was accepted (exit status 0)"
+        return None if ("fatal" in err or "error" in err) and out == "" else "rejected without a diagnostic line, or with output on stdout"
     if r["exit"] != 0:
         return f"exit status {r['exit']}"
     if kind == "silent":
@@ -374,7 +399,11 @@ def main(tier: str) -> int:
     codes = C.coq_eval_codes("c20", HEADER, "c20_case", "c20_code", terms, shard=400) if model_ok else [0] * len(terms)
     corr_fail = [m for c, m in zip(codes, metas) if c & 1]
     spec_fail = [(c, m) for c, m in zip(codes, metas) if c & 2]
-    new = [m for c, m in spec_fail if not (c & 12) or (c & 1)]
+    listed = {f.get("class") for f in C.known_findings(PROP)}
+
+    def in_listed_class(c):
+        return bool(((c & 4) and "KF_C20_1" in listed) or ((c & 8) and "KF_C20_2" in listed))
+    new = [m for c, m in spec_fail if not in_listed_class(c) or (c & 1)]
     kf1 = any((c & 4) and not (c & 1) for c, m in spec_fail)
     kf2 = any((c & 8) and not (c & 1) for c, m in spec_fail)
 
@@ -432,7 +461,7 @@ def main(tier: str) -> int:
                                                  "the file system is an oracle of model/ProjRoot.v: the harness stats the markers of the working directory and all its ancestors with os.path"],
         "evaluations": len(terms) + len(sub) + len(r_terms) + len(e2e), "distinct_nontrivial": len({t for t in terms}),
         "rule": "per option every {absent, valid..., invalid...} TOML value x every {absent, valid, invalid} CLI value (exhaustive), every pair of options over {absent, valid, invalid} x {absent, valid}, "
-                "a seeded sample of the full product with unknown keys and shuffled order; 7 real subprocess scenarios with pyproject.toml and -c override files; distinct = distinct (toml, cli); "
+                "a seeded sample of the full product with unknown keys and shuffled order; 12 real subprocess scenarios with pyproject.toml and -c override files (valid, missing, empty, wrong type, boolean for integer, invalid choice, broken syntax, dash value); distinct = distinct (toml, cli); "
                 "TOML selection: generated directory trees (depth 1-4, each level with pyproject.toml / .git / .hg / .svn absent, a file or a directory, -c absent / existing / missing) in-process against model/ProjRoot.v, "
                 "12 fixed layouts (worktree, nested clone, marker files, subprojects) and 11 spellings of the override option (long, abbreviated, =, glued, clustered with -H / -T) as real runs",
         "traces_validated_against_impl": len(terms), "disagreements_checked": len(corr_fail), "spec_failures_new": len(new),
